@@ -26,7 +26,7 @@ INF = float('inf')
 EXTRACT_V = '''From Coq Require Import Extraction ExtrOcamlBasic QArith.
 Require Import Num C22_Model C19_Model.
 Extraction "C22m.ml" classify maskT calcMask toReport transitionSeen sgnT estimateRootTime findEventCandidates event_phase
-  min_window triggered_of periodic_next sys_next ts_stepTo ts_init use_okb Qplus Qminus Qred C19_Model.select_t1.
+  min_window triggered_of periodic_next sys_next ts_stepTo ts_init use_coreb use_monob Qplus Qminus Qred C19_Model.select_t1.
 '''
 
 def fx(s):
@@ -398,7 +398,13 @@ def corr_ts(ctx, drv, exe, nscen, seed, res):
             if mt[0] != 'RET' or mt[1] != r['status'] or not feq(fx(mt[2]), r['t']) or not feq(fx(mt[3]), r['adv']) or int(mt[4]) != r['over'] or mt[5] != '1':
                 res['mismatch'].append(('ts', w + 'model result %s' % blk[0])); okA = False; break
             if mt[6] != '1':
-                res['mismatch'].append(('ts:contract', w + 'integrator answer violates the contract use_ok: %s' % [l for l in blk if l.startswith('U ')])); okA = False; break
+                res['mismatch'].append(('ts:contract', w + 'integrator answer violates the contract use_core: %s' % [l for l in blk if l.startswith('U ')])); okA = False; break
+            if mt[9] != '1':
+                # the advanced time went back: never for AbstractIntegratorRep; CPodesIntegratorRep integrates past a pending
+                # report time and interpolates back (C19 known finding cpodes-advanced-passes-sched), so use_mono is not claimed for it
+                if a['name'] == 'CPodes': res['cpodes_nonmono'] += 1
+                else:
+                    res['mismatch'].append(('ts:contract', w + 'advanced time decreased (use_mono violated) for %s' % a['name'])); okA = False; break
             if not feq(fx(mt[7]), r['qa'], 1e-12) or not feq(fx(mt[8]), r['qb'], 1e-9):
                 res['mismatch'].append(('ts', w + 'advanced state after handling: implementation qA=%s qB=%s, model %s %s' % (hx(r['qa']), hx(r['qb']), mt[7], mt[8]))); okA = False; break
             n0 = len(res['mismatch']); cmp_log(blk, r['h'], ids, w, res, 'ts')
@@ -440,11 +446,11 @@ def ts_predicates(a, b, ids, where, res):
         calls = [h for tg in sc['targets'] for r in tg['rets'] for h in r['h']]
         last = [r for tg in sc['targets'] for r in tg['rets']]
         if not last: continue
-        tend = last[-1]['adv']; terminated = any(int(sc['hs'][i][3]) == 3 for i, _, _, _, _ in calls)
+        tend = last[-1]['t']; terminated = any(int(sc['hs'][i][3]) == 3 for i, _, _, _, _ in calls)
         qa_expect = 0.0
         for (idx, kind, t, qa, qb) in calls:
             res['n_pred'] += 1
-            if kind in ('S', 'T') and qa != qa_expect:
+            if kind in ('S', 'T') and abs(qa - qa_expect) > 1e-9 * max(1.0, abs(qa_expect)):     # interpolation rounds qA by ulps
                 res['pred_fail'].append(('integration_resumes_from_handler_state', where + 'run %s: handler %d at t=%s sees qA=%s, the handlers before it produced %s' % (run, idx, hx(t), hx(qa), hx(qa_expect)),
                                          {'mode': 'ts', 'scenario': sc['id'], 'integrator': sc['name']}))
                 break
@@ -532,7 +538,7 @@ def corr_sub2(ctx, drv, exe, n, res):
 def new_res():
     return {'mismatch': [], 'pred_fail': [], 'n_table': 0, 'n_root': 0, 'n_fec': 0, 'n_fec_nontrivial': 0, 'n_steps': 0, 'n_events': 0,
             'n_events_compared': 0, 'n_iters_compared': 0, 'iters_hist': {}, 'loc_paths': {}, 'hooks': False, 'samples': [], 'n_pred': 0,
-            'n_handler_calls': 0, 'n_ts_returns': 0, 'n_ts_returns_B': 0, 'ts_status': {}, 'ts_kinds': {}, 'findings': [], 'n_sysnext': 0}
+            'n_handler_calls': 0, 'n_ts_returns': 0, 'n_ts_returns_B': 0, 'ts_status': {}, 'ts_kinds': {}, 'findings': [], 'n_sysnext': 0, 'cpodes_nonmono': 0}
 
 def run(ctx):
     ctx.build_repo()
@@ -582,13 +588,14 @@ def run(ctx):
         seenp.add(key)
         ctx.report('impl:' + key, 'implementation violates the C22 clause %s: %s' % (key, desc), dict(obj, replay_cmd='%s <mode> %d <n>' % (exe, ctx.seed)))
     ctx.extra['predicate_failures'] = len(res['pred_fail'])
+    ctx.extra['cpodes_answers_with_decreasing_advanced_time'] = res['cpodes_nonmono']
     ctx.extra['system_level_next_event_queries'] = res['n_sysnext']; ctx.extra['system_level_loop_variant'] = res.get('sysnext_variant')
     for key, desc, obj in res['findings']:
         ctx.report(key, desc, obj)
     ctx.assumptions += [
         'theorems about the numeric part are over the reals (ROps); binary64 is covered only by the exact/1e-15 comparison of the extracted float instance with the implementation',
         'trigger values at interpolated times are an oracle e(t) in the theorems (any function); in the tie the witness functions depend on time only, so e is known exactly',
-        'Integrator::stepTo is an oracle for the TimeStepper model; the theorems assume use_ok at each use (C19 theorems for AbstractIntegratorRep); the replay evaluates use_okb on every recorded answer',
+        'Integrator::stepTo is an oracle for the TimeStepper model; the theorems assume use_core (and use_mono for the time-order theorem) at each use (C19 theorems for AbstractIntegratorRep); the replay evaluates use_coreb on every recorded answer of all nine integrators and use_monob on the eight AbstractIntegratorRep ones (CPodes lets the advanced time go back: C19 known finding, so the time-order theorem does not cover it)',
         'scheduled handlers whose next event time depends on the state time only; one subsystem (the default one) owns scheduled handlers',
         'not decided: crossings that appear and disappear within one step; accuracy of interpolated trigger values']
     ctx.finish()
